@@ -994,3 +994,79 @@ def per_item_unit(ctx: Ctx, f: Func):
                 return (m, m.params[-1], hp, lp.ast, True)
         return (f, var, [p_ for p_ in loop_body_paths(cfg, lp) if p_[-1][0] is lp], lp.ast, False)
     return None
+
+
+UNKNOWN_VALUE = "<unfoldable>"
+
+
+def possible_values(ctx: Ctx, f: Func, expr: ast.AST, at: Optional[ast.AST] = None, depth: int = 0) -> Set[object]:
+    """The finite set of values `expr` can have when statement `at` of f runs; UNKNOWN_VALUE when not determined.
+
+    Constants fold; a single-assignment local stands for its value; `a or b`/conditional expressions are unions; a lookup
+    in a constant dict gives its values (`.get` adds None or the default).  A value excluded by a dominating test
+    (`if v is None: raise`, `if not v: raise`) is removed when every path to `at` takes the other branch."""
+    if depth > 6:
+        return {UNKNOWN_VALUE}
+    from ..fold import known as _known
+
+    stored = {n.id for n in ast.walk(f.node) if isinstance(n, ast.Name) and isinstance(n.ctx, ast.Store)} | set(f.params)
+    if not (names_in(expr) & stored):
+        v = ctx.folder.fold(expr, f.module)
+        if _known(v) and isinstance(v, (str, int, bool, type(None))):
+            return {v}
+    env = single_env(f.node)
+
+    def table(e: ast.AST):
+        t = ctx.folder.fold(e, f.module)
+        if not (_known(t) and isinstance(t, dict)) and isinstance(e, ast.Name) and e.id in env:
+            t = ctx.folder.fold(env[e.id], f.module)
+        return t if _known(t) and isinstance(t, dict) and all(isinstance(x, (str, int, bool, type(None))) for x in t.values()) else None
+
+    out: Set[object]
+    if isinstance(expr, ast.Name) and expr.id in env:
+        out = possible_values(ctx, f, env[expr.id], None, depth + 1)
+        if at is not None:
+            cfg = ctx.cfg(f)
+            target = cfg.node_containing(at)
+            if target is not None:
+                for nd in cfg.live:
+                    if nd.kind != "cond" or not cfg.dominates(nd, target):
+                        continue
+                    t = nd.ast
+                    excl = None  # (predicate over values that hold on the T edge)
+                    if isinstance(t, ast.Compare) and len(t.ops) == 1 and isinstance(t.left, ast.Name) and t.left.id == expr.id and is_const(t.comparators[0], None):
+                        if isinstance(t.ops[0], ast.Is):
+                            excl = lambda x: x is None  # noqa: E731
+                        elif isinstance(t.ops[0], ast.IsNot):
+                            excl = lambda x: x is not None  # noqa: E731
+                    elif isinstance(t, ast.Name) and t.id == expr.id:
+                        excl = lambda x: bool(x)  # noqa: E731
+                    if excl is None:
+                        continue
+                    for lab, keep in (("T", excl), ("F", lambda x, e=excl: not e(x))):
+                        succ = nd.succs(lab)
+                        if succ and not any(target is s or target in cfg.reachable(s) for s in succ):
+                            # the `lab` branch never reaches `at`: values satisfying it are gone
+                            out = {x for x in out if x == UNKNOWN_VALUE or not keep(x)}
+        return out
+    if isinstance(expr, ast.BoolOp) and isinstance(expr.op, ast.Or):
+        out = set()
+        for i, e in enumerate(expr.values):
+            vs = possible_values(ctx, f, e, None, depth + 1)
+            last = i == len(expr.values) - 1
+            out |= {x for x in vs if last or x == UNKNOWN_VALUE or x}
+            if UNKNOWN_VALUE not in vs and all(vs) and vs:
+                break
+        return out
+    if isinstance(expr, ast.IfExp):
+        return possible_values(ctx, f, expr.body, None, depth + 1) | possible_values(ctx, f, expr.orelse, None, depth + 1)
+    if isinstance(expr, ast.Subscript) and not isinstance(expr.slice, ast.Slice):
+        t = table(expr.value)
+        if t is not None:
+            return set(t.values())
+    if isinstance(expr, ast.Call) and isinstance(expr.func, ast.Attribute) and expr.func.attr == "get" and 1 <= len(expr.args) <= 2 and not expr.keywords:
+        t = table(expr.func.value)
+        if t is not None:
+            dflt = possible_values(ctx, f, expr.args[1], None, depth + 1) if len(expr.args) == 2 else {None}
+            return set(t.values()) | dflt
+    return {UNKNOWN_VALUE}
